@@ -395,6 +395,12 @@ class PStutter(Pattern):
     def __repr__(self):
         return ("PStutter(%s, %s)" % (repr(self.pattern), self.count))
 
+    def reset(self):
+        super().reset()
+        self.count_current = 0
+        self.pos = 0
+        self.value = 0
+
     def __next__(self):
         if self.pos >= self.count_current:
             self.count_current = Pattern.value(self.count)
